@@ -724,6 +724,273 @@ def search_dilation(ctx):
     ctx.ob(name, bad == 0, "search", f"{bad} failing inputs" if bad else "")
 
 
+
+# ---------------------------------------------------------------------------------------------
+# dispatch: the call graph of the conversion wrappers, regenerated from the source (ast)
+
+REPS = ("kraus", "choi", "liouville", "pauli", "chi", "stinespring")
+PARS = (("order", "order"), ("norm", "normalize"), ("po", "pauli_order"), ("env", "initial_state_env"),
+        ("nq", "nqubits"), ("denv", "dim_env"))
+LIB_DEFAULT = {"order": "'row'", "normalize": "False", "pauli_order": "'IXYZ'", "initial_state_env": "None", "nqubits": "None"}
+SIDE = ("vectorization", "unvectorization", "comp_basis_to_pauli", "pauli_to_comp_basis", "pauli_basis")
+LIT = {"'row'": 0, "'column'": 1, "'system'": 2, "True": 1, "False": 0, "None": 0, "'IXYZ'": 0}
+
+
+def nominal(name):
+    """typing suggested by the function name."""
+    if name.startswith("to_"):
+        b = name[3:]
+        return ("op", "pauli" if b == "pauli_liouville" else b)
+    if "_to_" in name:
+        a, b = name.split("_to_", 1)
+        if a in REPS and b in REPS:
+            return (a, b)
+    return None
+
+
+def regenerate_dispatch(prim_typings):
+    """(rows, side_violations, notes): rows = [(name, src, dst, [(callee, src, dst, data, [6 arg tokens])])]
+    in call order, from the CURRENT source of superoperator_transformations.py (+ basis.py signatures)."""
+    import ast
+    import inspect
+
+    from qibo.quantum_info import basis as basis_mod
+    from qibo.quantum_info import superoperator_transformations as st_mod
+
+    tree = ast.parse(inspect.getsource(st_mod))
+    btree = ast.parse(inspect.getsource(basis_mod))
+    funcs = {n.name: n for n in tree.body if isinstance(n, ast.FunctionDef)}
+    bfuncs = {n.name: n for n in btree.body if isinstance(n, ast.FunctionDef)}
+
+    def sig(fn):
+        a = fn.args
+        names = [x.arg for x in a.args]
+        defaults = [None] * (len(names) - len(a.defaults)) + [ast.unparse(d) for d in a.defaults]
+        return list(zip(names, defaults))
+
+    def names_in(node):
+        return {n.id for n in ast.walk(node) if isinstance(n, ast.Name)}
+
+    prim_names = {t[0] for t in prim_typings}
+    conv = {n for n in funcs if (nominal(n) is not None or n == "_reshuffling")}
+
+    def call_args(call, callee_sig):
+        args = {}
+        for i, a in enumerate(call.args):
+            if i < len(callee_sig):
+                args[callee_sig[i][0]] = a
+        for k in call.keywords:
+            if k.arg is not None:
+                args[k.arg] = k.value
+        return args
+
+    def arg_tokens(call, callee_sig, caller_params):
+        passed = call_args(call, callee_sig)
+        cs = dict(callee_sig)
+        toks = []
+        for _, pname in PARS:
+            if pname not in cs:
+                toks.append("D")
+                continue
+            if pname not in passed:
+                d = cs[pname]
+                toks.append("D" if d is None or d == LIB_DEFAULT.get(pname, d) else f"L{LIT.get(d, 98)}")
+                continue
+            e = passed[pname]
+            if isinstance(e, ast.Name) and e.id == pname and pname in caller_params:
+                toks.append("C")
+            else:
+                toks.append(f"L{LIT.get(ast.unparse(e), 99)}")
+        return toks, passed
+
+    rows, side_bad, graph = {}, [], {}
+    for name, fn in funcs.items():
+        if name.startswith("_") or name == "kraus_to_unitaries":
+            continue
+        params = [pn for pn, _ in sig(fn)]
+        current = {params[0]} if params else set()
+        steps = []
+        returned_ok = [True]
+
+        def visit(stmts):
+            nonlocal current
+            for s in stmts:
+                if isinstance(s, (ast.If, ast.For, ast.While, ast.With)):
+                    visit(getattr(s, "body", []))
+                    visit(getattr(s, "orelse", []))
+                    continue
+                value = getattr(s, "value", None)
+                if value is None:
+                    continue
+                calls = [c for c in ast.walk(value) if isinstance(c, ast.Call) and isinstance(c.func, ast.Name)]
+                for c in calls:
+                    if c.func.id in SIDE:
+                        csig = sig(funcs[c.func.id]) if c.func.id in funcs else sig(bfuncs[c.func.id])
+                        toks, passed = arg_tokens(c, csig, params)
+                        for (par, pname), t in zip(PARS, toks):
+                            if pname in dict(csig) and pname in params and t != "C":
+                                side_bad.append(f"{name}: {c.func.id}(... {pname}={'<default>' if pname not in passed else ast.unparse(passed[pname])})")
+                conv_calls = [c for c in calls if c.func.id in conv]
+                for c in conv_calls:
+                    csig = sig(funcs[c.func.id])
+                    toks, passed = arg_tokens(c, csig, params)
+                    first = passed.get(csig[0][0])
+                    data = first is not None and bool(names_in(first) & current)
+                    steps.append([c.func.id, data, toks])
+                    graph.setdefault(name, set()).add(c.func.id)
+                targets = set()
+                if isinstance(s, ast.Assign):
+                    for t in s.targets:
+                        targets |= names_in(t)
+                elif isinstance(s, (ast.AugAssign, ast.AnnAssign)):
+                    targets |= names_in(s.target)
+                if conv_calls:
+                    if isinstance(s, ast.Return):
+                        current = {"<returned>"}
+                    else:
+                        current = set(targets)
+                elif isinstance(s, ast.Return):
+                    if steps and not (names_in(value) & current):
+                        returned_ok[0] = False
+                elif targets and (names_in(value) & current):
+                    current |= targets
+
+        visit(fn.body)
+        if steps and not returned_ok[0]:
+            steps[-1][1] = False
+        if name in prim_names or not steps:
+            continue
+        rows[name] = steps
+    # call order
+    order, seen = [], set()
+
+    def dfs(n):
+        if n in seen:
+            return
+        seen.add(n)
+        for m in sorted(graph.get(n, ())):
+            if m in rows:
+                dfs(m)
+        order.append(n)
+
+    for n in rows:
+        dfs(n)
+    typings = list(prim_typings)
+    out = []
+    for n in order:
+        nom = nominal(n)
+        cur = nom[0]
+        steps = []
+        for callee, data, toks in rows[n]:
+            cands = [t for t in typings if t[0] == callee and t[1] == cur]
+            if cands:
+                s_, d_ = cands[0][1], cands[0][2]
+            else:
+                cn = nominal(callee) or (cur, cur)
+                s_, d_ = cn
+            steps.append((callee, s_, d_, data, toks))
+            cur = d_
+        out.append((n, nom[0], nom[1], steps))
+        typings.append((n, nom[0], nom[1]))
+    return out, side_bad
+
+
+def row_text(r):
+    n, s, d, steps = r
+    return f"{n} {s} {d} {len(steps)} " + " ".join(f"{c} {a} {b} {1 if data else 0} {' '.join(toks)}" for c, a, b, data, toks in steps)
+
+
+def dispatch_failing_input(ctx, fname, ob):
+    """a wrapper whose regenerated pipeline is not accepted: look for a configuration on which the
+    real function does not return a representation of the same channel (SPEC: props.C17.Ref)."""
+    import inspect
+
+    from props.C17 import HDR, Ref, arr_src as asrc, close, tp_kraus_full, cmatrix
+    from qibo.quantum_info import superoperator_transformations as st
+
+    nom = nominal(fname)
+    f = getattr(st, fname, None)
+    if nom is None or f is None or nom[1] in ("kraus", "stinespring"):
+        return False
+    a, b = nom
+    rng = ctx.rng
+    params = inspect.signature(f).parameters
+    for n in (1, 2):
+        d = 2**n
+        Ks = tp_kraus_full(rng, d, 1 if a == "op" else 2)
+        env = {}
+        if a == "stinespring":
+            e = 2
+            U, _ = np.linalg.qr(cmatrix(rng, d * e))
+            v = cmatrix(rng, 1, e)[0]
+            v = v / np.linalg.norm(v)
+            Ks = [np.einsum("ijb,b->ij", U.reshape(d, e, d, e)[:, al, :, :], v) for al in range(e)]
+            env = {"dim_env": e, "initial_state_env": v, "nqubits": n}
+        rho = cmatrix(rng, d)
+        truth = Ref.apply_kraus(Ks, rho)
+        for order in ("column", "row", "system"):
+            for normalize in (True, False):
+                for po in ("ZXIY", "IXYZ"):
+                    src = {"op": lambda: Ks[0], "kraus": lambda: [(tuple(range(n)), K) for K in Ks], "choi": lambda: Ref.choi(Ks, order),
+                           "liouville": lambda: Ref.liouville(Ks, order), "pauli": lambda: Ref.pauli(Ks, n, normalize, po),
+                           "chi": lambda: Ref.chi(Ks, n, normalize, po), "stinespring": lambda: U}[a]()
+                    kw = {k: v for k, v in (("order", order), ("normalize", normalize), ("pauli_order", po)) if k in params}
+                    kw.update({k: (x.copy() if isinstance(x, np.ndarray) else x) for k, x in env.items() if k in params})
+                    exp = {"choi": lambda: Ref.choi(Ks, order), "liouville": lambda: Ref.liouville(Ks, order),
+                           "pauli": lambda: Ref.pauli(Ks, n, normalize, po), "chi": lambda: Ref.chi(Ks, n, normalize, po)}[b]()
+                    try:
+                        out = np.asarray(f(src, **kw))
+                    except NotImplementedError:
+                        continue
+                    except Exception:  # noqa: BLE001
+                        out = None
+                    if out is None or not close(out, exp, 1e-7):
+                        kws = ", ".join(f"{k}={(asrc(x) if isinstance(x, np.ndarray) else repr(x))}" for k, x in kw.items())
+                        srcs = ("[" + ", ".join(f"({q!r}, {asrc(K)})" for q, K in src) + "]") if a == "kraus" else asrc(src)
+                        ctx.fail(f"dispatch:{fname}", f"{fname}({a}, {', '.join(f'{k}={v!r}' for k, v in kw.items() if not isinstance(v, np.ndarray))}) does not return the {b} representation of the same channel ({n} qubits): its pipeline does not hand the configuration on consistently",
+                                 HDR + f"out = np.asarray(st.{fname}({srcs}, {kws}))\nexp = {asrc(exp)}\nassert out.shape == exp.shape and np.allclose(out, exp, atol=1e-6), np.abs(out - exp).max()\n",
+                                 expected=str(np.round(exp, 6).tolist())[:300], observed=str(None if out is None else np.round(out, 6).tolist())[:300], broken=[ob])
+                        return True
+    return False
+
+
+def corr_dispatch(ctx):
+    ob = "C17_dispatch_table"
+    prim_line, table_line = run_driver(["DPRIMS", "DTABLE"], driver=DRIVER)
+    prim_typings = [tuple(t.split()) for t in prim_line.split(" | ")]
+    model_rows = {r.split()[0]: " ".join(r.split()) for r in table_line.split(" | ")}
+    rows, side_bad = regenerate_dispatch(prim_typings)
+    texts = [row_text(r) for r in rows]
+    # tableOk on every prefix: the first failing prefix names the offending wrapper
+    lines = [f"DTABLEOK {k} " + " ".join(texts[:k]) for k in range(1, len(texts) + 1)]
+    outs = run_driver(lines, driver=DRIVER) if lines else []
+    first_bad = next((k for k, o in enumerate(outs) if o.strip() != "ok"), None)
+    regen = {r[0]: " ".join(t.split()) for r, t in zip(rows, texts)}
+    differs = sorted(n for n in set(regen) | set(model_rows) if regen.get(n) != model_rows.get(n))
+    ctx.stat("dispatch:wrappers", len(rows))
+    ctx.stat("dispatch:rows_differing_from_model_table", len(differs))
+    for r in rows:
+        ctx.case(("dispatch", r[0]))
+    for t in texts[:3]:
+        ctx.sample({"dispatch_row": t})
+    ok = first_bad is None and len(rows) > 0
+    detail = ""
+    if not ok:
+        bad_name = rows[first_bad][0] if rows else "<no wrappers found>"
+        detail = f"tableOk fails at wrapper {bad_name}: regenerated `{regen.get(bad_name)}` vs model `{model_rows.get(bad_name)}`"
+        if rows:
+            dispatch_failing_input(ctx, bad_name, ob)
+    elif differs:
+        # a consistent re-routing: accepted (the soundness theorem covers every table passing tableOk)
+        detail = f"accepted; rows differing from the model's table: {differs}"
+    ctx.ob(ob, ok, "correspondence", detail or f"{len(rows)} wrappers regenerated from the source, identical to the model's table")
+    ob2 = "C17_dispatch_side_calls"
+    if side_bad:
+        for item in side_bad[:1]:
+            dispatch_failing_input(ctx, item.split(":")[0], ob2)
+    ctx.ob(ob2, not side_bad, "correspondence", "; ".join(side_bad[:4]))
+
+
 def run_suites(ctx):
     import logging
 
@@ -739,6 +1006,7 @@ def run_suites(ctx):
         search_algebra(ctx)
         observe_dimension_check(ctx)
         search_dilation(ctx)
+        corr_dispatch(ctx)
     finally:
         logging.disable(prev)
     ctx.notes.append("quantum networks: exact Gaussian-integer correspondence of lean/QV/Model/Networks.lean with QuantumNetwork / "
